@@ -207,6 +207,24 @@ def run(tier):
     cases += isa.gen_mem(False, rnd, per_class=300 if not full else 3000)
     cases += isa.gen_imm(rnd, False)
     cases += [c for c in isa.gen_branch(rnd, 8) if c["d"] % 3 == 0 or full]
+    # immediates of any magnitude, also ones the destination cannot hold: whatever the library does with them, the options must not matter
+    import re
+    WIDE = [0x80, 0xff, 0x100, 0x8000, 0xffff, 0x10000, 0x7fffffff, 0x80000000, 0xffffffff, 0x100000000, 0x1ffffffff, 0x7fffffffffffffff, 0x8000000000000000,
+            0xffffffffffffffff, -0x81, -0x8001, -0x80000000, -0x80000001]
+    seen_forms = set()
+    for c in list(cases):
+        if not c["fam"].startswith("imm_"):
+            continue
+        form = re.sub(r"-?(0x[0-9a-f]+|[0-9]+)$", "", c["text"])
+        if form == c["text"] or form in seen_forms:
+            continue
+        seen_forms.add(form)
+        for val in (WIDE if full else rnd.sample(WIDE, 6) + [0x80000000, 0xffffffff]):
+            c2 = dict(c)
+            c2["text"] = form + (("-0x%x" % -val) if val < 0 else ("0x%x" % val if rnd.random() < 0.7 else "%d" % val))
+            c2["wide"] = True
+            cases.append(c2)
+    stats["wide_immediate_forms"] = len(seen_forms)
     lines = {}
     origin = {}
     for c in cases:
